@@ -74,9 +74,11 @@ func (s String) Inspect() string {
 			// reached the end of the string
 			break
 		}
+		invalidByte := false
 		if char == utf8.RuneError && size == 1 {
 			// invalid UTF-8 character
 			char = rune(leftStr[0])
+			invalidByte = true
 		}
 		switch char {
 		case '\\':
@@ -102,9 +104,13 @@ func (s String) Inspect() string {
 		case '#':
 			buffer.WriteString(`\#`)
 		default:
-			if unicode.IsGraphic(char) {
+			if invalidByte {
+				// a byte that is not part of a valid UTF-8 sequence stays a single byte
+				fmt.Fprintf(&buffer, `\x%02x`, char)
+			} else if unicode.IsGraphic(char) {
 				buffer.WriteRune(char)
-			} else if char>>8 == 0 {
+			} else if char < utf8.RuneSelf {
+				// `\xNN` denotes the byte NN, which is the character only for ASCII
 				fmt.Fprintf(&buffer, `\x%02x`, char)
 			} else if char>>16 == 0 {
 				fmt.Fprintf(&buffer, `\u%04x`, char)
